@@ -300,6 +300,20 @@ def rule_same_text(ctx: Ctx) -> RuleResult:
     return rr
 
 
+def _utf8_bound(ctx: Ctx):
+    """right / delete step with move_next_char, left / backspace with move_prev_char: the two must cover whole characters"""
+    from . import c11
+
+    return c11.rule_utf8_scan_bound(ctx, "C10.14")
+
+
+def _row_range(ctx: Ctx):
+    """`up` on the first edit row must come back unhandled: the row bounds of Edit.move_cursor_to_coords (C09.10)"""
+    from . import c09
+
+    return c09.rule_edit_row_range(ctx, "C10.13")
+
+
 def run(ctx: Ctx):
     p = ctx.p
     return [
@@ -312,6 +326,8 @@ def run(ctx: Ctx):
         rule_alphabet(ctx),
         rule_same_text(ctx),
         rule_clamped_cursor_read(ctx),
+        _row_range(ctx),
+        _utf8_bound(ctx),
         loopfresh.run_loopfresh(p, "C10.12", "C10", floor=1),
         accum.run_accum(p, "C10.9", "C10", floor=3),
         offstep.run_offstep(p, "C10.10", ["urwid.text_layout.calc_line_pos", "urwid.text_layout.calc_pos", "urwid.text_layout.calc_coords"], floor=0),
